@@ -8,7 +8,7 @@ set -u
 PATCH=$1; ID=$2; SEED=${3:-1}; BUDGET=${4:-120}
 H=/tmp/mh
 mkdir -p $H
-git -C /tmp/mutrepo checkout -q -- .
+git -C /tmp/mutrepo reset -q --hard
 git -C /tmp/mutrepo checkout -q --detach "$(git -C /repo rev-parse HEAD)" 2>/dev/null
 rsync -a --delete --exclude target /verif/harness/ $H/harness/
 sed -i "s|\"/repo/|\"/tmp/mutrepo/|g" $H/harness/gxv/Cargo.toml $H/harness/gxv-miri/Cargo.toml
@@ -19,15 +19,25 @@ if [ "$PATCH" != "none" ]; then
   fi
 fi
 cd $H/harness
-CARGO_NET_OFFLINE=true CARGO_TARGET_DIR=$H/target cargo build --offline --profile verif -p gxv 2>&1 | grep -E "^error" -A10 | head -30
+CARGO_NET_OFFLINE=true CARGO_TARGET_DIR=$H/target cargo build --offline --profile verif -p gxv > $H/build.log 2>&1 || { grep -E "^error" -A10 $H/build.log | head -30; echo "$ID RESULT build-failed"; git -C /tmp/mutrepo reset -q --hard; exit 2; }
 mkdir -p $H/replays
 GXV_REPO_PREFIX=/tmp/mutrepo/ GXV_REPLAY_DIR=$H/replays GXV_BUDGET_S=$BUDGET $H/target/verif/gxv $ID --tier quick --seed $SEED --out $H/$ID.json 2>$H/$ID.err
 python3 - <<PY
 import json
 d=json.load(open("$H/$ID.json"))
 print("$ID seed $SEED evals", d["evaluations"], "distinct", d["distinct_nontrivial"], "wall", round(d["wall_s"],1))
+known=set()
+for l in open("/verif/known_findings.jsonl"):
+    l=l.strip()
+    if l:
+        k=json.loads(l)
+        if k.get("status")=="known" and k["property"]=="$ID": known.add(k["signature"])
+new=0
 for v in d["violations"]:
-    print("  VIOLATION", v["signature"], "x", v["count"], "::", v["what"][:160])
+    kn = v["signature"] in known
+    new += 0 if kn else 1
+    print("  KNOWN    " if kn else "  VIOLATION", v["signature"], "x", v["count"], "::", v["what"][:160])
+print("$ID RESULT new-violations", new)
 for i in d["inconclusive"]:
     print("  INCONCLUSIVE", i[:160])
 PY
